@@ -36,6 +36,11 @@ CHECKS["C07"] = dict(
    note="virtual time; wait == max queueing time may go either way; 1 ns slack; bounded scope for the exhaustive part",
    technique="TLA+ spec Throttle.tla; TLC model checking; TLC-generated behaviours replayed into the code; TLC trace validation of recorded executions",
    ref="DESIGN.md §6 C07")
+CHECKS["C03"] = dict(
+   text="TLC model-checks Breaker.tla (three strategies, min request amount, thresholds on the boundary, 1-2 window buckets, retry shorter/longer than the window, one or two breakers, blocked probes, stale completions) with the invariants one-probe-per-phase, listener log is a path, statistics cleared on close; every behaviour of the bounded model and random histories are executed through circuitbreaker::load_rules, EntryBuilder::build, trace_error/exit and a registered StateChangeListener; TLC validates after every call the admission result, each breaker's state and retry instant and the exact listener records",
+   note="sequential calls; stale completion in Half-Open may decide or not; order of several breakers as reported by the manager; bounded scope for the exhaustive part",
+   technique="TLA+ spec Breaker.tla; TLC model checking; TLC-generated behaviours replayed into the code; TLC trace validation of recorded executions",
+   ref="DESIGN.md §6 C03")
 NOT_APPLICABLE = {}
 
 def main():
